@@ -6,10 +6,8 @@ package block
 
 //@ import io github.com/nspcc-dev/neo-go/pkg/io
 
-// Safety frame of the header decoder as used by other decoders (assumed here; the header
-// codec itself is not yet under contract).
+// Safety frame of the header decoder as used by other decoders.
 //@ func (*Header).DecodeBinary
-//@ assumed
 //@ requires b != nil && io.validR(br)
 //@ modifies *b, br.Err, br.uv, br.r.pos
 //@ ensures old(br.r.pos) <= br.r.pos && io.validR(br)
@@ -31,3 +29,32 @@ package block
 //@ pure
 //@ requires b != nil
 //@ ensures result == blockMerkle(b)
+
+// C17: the hashable part of a header has one byte layout, written by encodeHashableFields and
+// read back by decodeHashableFields field for field, and after a successful decode the cached
+// hash is the digest of the fields just decoded (never a hash left over from what the receiver
+// held before). The digest itself (SHA-256 of that layout) is taken as a function of the fields.
+//@ prop C17
+//@ spec hashableLen(b *Header) int = ite(b.StateRootEnabled, 141, 109)
+//@ spec hdrAt(b *Header, s seq, p int) bool = io.le32(s, p) == b.Version && forall(k, 0, 32, s[p+4+k] == b.PrevHash[k]) && forall(k, 0, 32, s[p+36+k] == b.MerkleRoot[k]) && io.le64(s, p+68) == b.Timestamp && io.le64(s, p+76) == b.Nonce && io.le32(s, p+84) == b.Index && s[p+88] == b.PrimaryIndex && forall(k, 0, 20, s[p+89+k] == b.NextConsensus[k]) && (b.StateRootEnabled ==> forall(k, 0, 32, s[p+109+k] == b.PrevStateRoot[k]))
+//@ spec digestOf(version uint32, prev util.Uint256, merkle util.Uint256, ts uint64, nonce uint64, index uint32, primary byte, next util.Uint160, sre bool, psr util.Uint256) util.Uint256
+//@ spec hdrDigest(b *Header) util.Uint256 = digestOf(b.Version, b.PrevHash, b.MerkleRoot, b.Timestamp, b.Nonce, b.Index, b.PrimaryIndex, b.NextConsensus, b.StateRootEnabled, b.PrevStateRoot)
+
+//@ func (*Header).createHash
+//@ assumed
+//@ requires b != nil
+//@ modifies b.hash
+//@ ensures b.hash == hdrDigest(b)
+
+//@ func (*Header).encodeHashableFields
+//@ requires b != nil && io.validW(bw)
+//@ modifies bw.Err, bw.w.out, bw.uv
+//@ ensures[sticky] old(bw.Err) != nil ==> bw.Err == old(bw.Err) && bw.w.out == old(bw.w.out)
+//@ ensures[layout] bw.Err == nil ==> io.ext(bw.w.out, old(bw.w.out), hashableLen(b)) && hdrAt(b, bw.w.out, old(len(bw.w.out)))
+
+//@ func (*Header).decodeHashableFields
+//@ requires b != nil && io.validR(br)
+//@ modifies b.Version, b.PrevHash, b.MerkleRoot, b.Timestamp, b.Nonce, b.Index, b.PrimaryIndex, b.NextConsensus, b.PrevStateRoot, b.hash, br.Err, br.uv, br.r.pos
+//@ ensures[layout] br.Err == nil ==> hdrAt(b, br.r.in, old(br.r.pos)) && br.r.pos == old(br.r.pos) + hashableLen(b)
+//@ ensures[hash] br.Err == nil ==> b.hash == hdrDigest(b)
+//@ ensures[reader] io.validR(br) && old(br.r.pos) <= br.r.pos
